@@ -356,6 +356,8 @@ def rand_message(rng, fam):
         # signed byte elements: format list of k columns, inline formats, or raw behind a value source head
         vals = [rng.randrange(256) for _ in range(rng.choice([0, 1, 2, 3, 5, 7, 40, 300]))]
         form = rng.choice(["list", "list", "inline", "raw", "raw"])
+        if form != "list":
+            vals = vals[:200]      # one row: its position counter is a byte (beyond 255 values the code glues numbers, for every cut)
         if form == "list":
             k = rng.choice([1, 2, 3, 5])
             data = [9, k] + [224] * k + vals
